@@ -100,7 +100,9 @@ Proof. exact FromMsgRefine.from_msg_spec. Qed.
 
 (* ---- end to end, on the SEMANTIC description of a well-formed response ----
    (Proofs/MessageRT.v, Properties/C02.v: one question and records standing back to back behind a
-   header that announces them; owner names in any legal compression; values of any of the 17 types.)
+   header that announces them; owner names in any legal compression; the answer records described by
+   values of the 17 types ([typed]), authority and additional records by values or raw octets — OPT
+   included; [sem_rcode]: the header nibble extended by the first OPT record behind the answers.)
    [sem_match q ty x]: the owner labels of x equal the question's labels case-insensitively, its type
    is the requested one and its class the question's.  If such records exist among the first an
    (the answer section), from_msg returns exactly their values in wire order, under the question's
@@ -111,11 +113,11 @@ Theorem C06_direct_answers_end_to_end : forall msg q rs an ns ar e1 e2 h ty,
   lenN rs = an + ns + ar -> an <= 65535 -> ns <= 65535 -> ar <= 65535 ->
   read_header msg (c_new msg) = (c_set_pos (c_new msg) 12, Ok h) ->
   h_qd h = 1 /\ h_an h = an /\ h_ns h = ns /\ h_ar h = ar ->
-  flag_qr (h_flags h) = true -> flag_tc (h_flags h) = false ->
-  forall x xs, filter (sem_match q ty) (firstn (N.to_nat an) rs) = x :: xs -> flag_rcode (h_flags h) = 0 ->
+  flag_qr (h_flags h) = true -> flag_tc (h_flags h) = false -> Forall typed (firstn (N.to_nat an) rs) ->
+  forall x xs, filter (sem_match q ty) (firstn (N.to_nat an) rs) = x :: xs -> sem_rcode rs an h = 0 ->
   from_msg msg ty =
   Ok (mkRRset (qtext q) (sq_class q) (fold_left N.min (map sr_ttl (x :: xs)) 4294967295)
-              (map (fun y => rdata_val (sr_data y)) (x :: xs))).
+              (map (fun y => sval (sr_data y)) (x :: xs))).
 Proof. exact from_msg_direct_answers. Qed.
 
 (* THE CNAME CHAIN, semantically.  [precs n e1 rs rends 0]: the first n records with their start and
@@ -133,10 +135,10 @@ Theorem C06_follows_chain_end_to_end : forall msg q rs an ns ar e1 e2 h ty,
   lenN rs = an + ns + ar -> an <= 65535 -> ns <= 65535 -> ar <= 65535 ->
   read_header msg (c_new msg) = (c_set_pos (c_new msg) 12, Ok h) ->
   h_qd h = 1 /\ h_an h = an /\ h_ns h = ns /\ h_ar h = ar ->
-  flag_qr (h_flags h) = true -> flag_tc (h_flags h) = false ->
+  flag_qr (h_flags h) = true -> flag_tc (h_flags h) = false -> Forall typed (firstn (N.to_nat an) rs) ->
   forall rends pn t os' x xs, rstands msg e1 rs rends ->
   schain q ty 12 (qtext q) (precs (N.to_nat an) e1 rs rends 0) pn t os' ->
-  filter (smatch q ty t) os' = x :: xs -> flag_rcode (h_flags h) = 0 ->
+  filter (smatch q ty t) os' = x :: xs -> sem_rcode rs an h = 0 ->
   from_msg msg ty = Ok (mkRRset t (sq_class q) (fold_left N.min (map pttl (x :: xs)) 4294967295) (map pval (x :: xs))).
 Proof. exact from_msg_follows_chain. Qed.
 
@@ -145,10 +147,10 @@ Theorem C06_chain_noanswer_end_to_end : forall msg q rs an ns ar e1 e2 h ty,
   lenN rs = an + ns + ar -> an <= 65535 -> ns <= 65535 -> ar <= 65535 ->
   read_header msg (c_new msg) = (c_set_pos (c_new msg) 12, Ok h) ->
   h_qd h = 1 /\ h_an h = an /\ h_ns h = ns /\ h_ar h = ar ->
-  flag_qr (h_flags h) = true -> flag_tc (h_flags h) = false ->
+  flag_qr (h_flags h) = true -> flag_tc (h_flags h) = false -> Forall typed (firstn (N.to_nat an) rs) ->
   forall rends pn t os', rstands msg e1 rs rends ->
   schain q ty 12 (qtext q) (precs (N.to_nat an) e1 rs rends 0) pn t os' ->
-  filter (smatch q ty t) os' = [] -> Forall (fun o => smatch q T_CNAME t o = false) os' -> flag_rcode (h_flags h) = 0 ->
+  filter (smatch q ty t) os' = [] -> Forall (fun o => smatch q T_CNAME t o = false) os' -> sem_rcode rs an h = 0 ->
   from_msg msg ty = Err NoAnswer.
 Proof. exact from_msg_chain_noanswer. Qed.
 
